@@ -355,12 +355,17 @@ _SRV_RULE = (" || server mode: 4 or 7 validators, 0-1 observers, 0-2 late joiner
              "synchronisation), observer restart; fault-free configuration (delays 1-80 ms per hop, 21+ s) or faulty (tcp-faithful or lossy: drop 0-6%, "
              "duplicate 0-12%, reorder 0-18%, delays up to 20/100/400/1200 ms, silent validators (at most f at a time), partitions, connection resets); "
              "0-10 client transactions plus 0-6 transactions that reach one validator 1-150 ms before a proposal is due; 1 run in 4 with one "
-             "DisableCompression node and direct relay of deployments")
+             "DisableCompression node and direct relay of deployments; 1 run in 3 (not C20) with 1-2 rival transaction pairs (two transactions of "
+             "one fresh account, each affordable alone, handed to disjoint validator groups at one instant; fault-free configuration: one of them on "
+             "chain within 10 block times); 1 joiner in 6 starts 46-60 blocks behind the top (block request window 8, block queue 32 under the "
+             "verif build tag; the random window choice of getRequestBlocksPayload comes from the plan)")
 _SRV_PROBES = ["srv_runs", "srv_runs_sync", "srv_runs_lossy", "srv_runs_tcp_faithful_faulty", "srv_validators_7", "connections", "redial", "peer_disconnected",
                "services_started", "getblockbyindex_served", "headers_served", "mptdata_served", "inv_getdata_tx", "consensus_missing_tx",
                "late_tx_submitted", "joiner_started/joiner-full", "joiner_started/joiner-statesync", "joiner_caught_up_in_bound", "statesync_jump_done",
                "statesync_state_checked", "joiner_restart_in_the_middle_of_state_sync", "node_restart/observer", "conn_killed", "partition", "silence_span",
-               "pkt_held_by_blackhole", "pkt_dropped", "pkt_duplicated", "pkt_reordered", "view_changed", "undecodable_packet_between_honest_nodes"]
+               "pkt_held_by_blackhole", "pkt_dropped", "pkt_duplicated", "pkt_reordered", "view_changed", "undecodable_packet_between_honest_nodes",
+               "rival_pairs_pooled_on_both_sides", "rival_pairs_split_2_2", "rival_pair_one_included", "node_started_more_than_a_block_queue_behind",
+               "block_request_window_chosen_at_random"]
 for _p in ("C19", "C07", "C20"):
     _r = REGISTRY[_p]
     REGISTRY[_p] = dict(_r, **{
@@ -371,8 +376,8 @@ for _p in ("C19", "C07", "C20"):
             "server mode: packets written to one connection at one simulated instant are delivered in an order derived from their content, and a "
             "packet of several messages is handed to the reader message by message: which goroutine of a node writes first is the Go scheduler's "
             "decision; BroadcastFactor 100 (with a smaller factor the Server cancels a broadcast after 'enough' per-peer goroutines have queued it)",
-            "server mode: liveness (>= 5 blocks in 20 block times, consecutive blocks at most 2 block times apart, caught-up nodes within 2 blocks of "
-            "the top, joiners caught up 15 block times after their start, all ledgers at one height after the settling phase) is asserted only in "
+            "server mode: liveness (>= 5 blocks in 20 block times, consecutive blocks at most 2 block times apart, nodes that have reached the top stay within 2 blocks of "
+            "it, joiners within 2 blocks of the top 15 block times after their start (one more per 4 blocks of a starting gap beyond 20), all ledgers at one height after the settling phase) is asserted only in "
             "the fault-free configuration"],
     })
 
